@@ -27,7 +27,7 @@ CONSTANTS Keys,        \* key identities; AddrOf is the identity on them
           Arity        \* numbers of required signers that occur (1 and 2)
 
 Muts == {"none", "payload", "feePrice", "feeGas", "feeCurrency", "memo", "type", "substKey", "flipSig",
-         "dropSigner", "addSigner", "swapSigners", "changeAlg", "resignOtherKey", "unsigned"}
+         "dropSigner", "addSigner", "swapSigners", "changeAlg", "resignOtherKey", "unsigned", "dupCoSigner"}
 
 VARIABLES tx, mut, pos
 avars == <<tx, mut, pos>>
@@ -62,6 +62,7 @@ Apply(t, m, p) ==
     [] m = "changeAlg" -> [t EXCEPT !.sigs[p].alg = "secp256k1"]
     [] m = "resignOtherKey" -> [t EXCEPT !.sigs[p] = Sig(Other, t.content)]
     [] m = "unsigned" -> [t EXCEPT !.sigs = <<>>]
+    [] m = "dupCoSigner" -> IF Len(t.sigs) < 2 THEN t ELSE [t EXCEPT !.sigs[p] = t.sigs[3 - p]]   \* a co-signer's key and signature in this slot
 
 Reqs == UNION {{r \in [1..n -> Keys \ {Other}] : \A i, j \in 1..n : i # j => r[i] # r[j]} : n \in Arity}
 
